@@ -60,6 +60,7 @@ def build(case):
     kwargs['start_times'] = (0, 0, 0, -5, 0.5, 7, 2.0 ** 53)
     # now and then an activity runs a complete simulation of its own (nested run())
     kwargs.setdefault('weights', {})['nested'] = 0.6
+    kwargs['weights']['phases'] = 1
     return Gen(rng, **kwargs).program(), rng
 
 
